@@ -17,6 +17,11 @@ func main() {
 	flag.IntVar(&o.U, "U", 3, "loop unwinding bound")
 	flag.IntVar(&o.K, "K", 30, "global steps")
 	flag.IntVar(&o.MapCap, "mapcap", 3, "slots per map")
+	flag.IntVar(&o.AppendCap, "appendcap", 0, "cells reserved for an append to a slice of symbolic length (default 4)")
+	flag.IntVar(&o.Preempt, "preempt", -1, "bound on the number of preemptions in a schedule (-1 = unbounded)")
+	flag.BoolVar(&o.Spin, "spin", false, "report unwinding failures of library loops as violations (busy loop)")
+	flag.StringVar(&o.HintDir, "hints", "", "directory with shared-cell hint files (seed of the fixpoint)")
+	flag.BoolVar(&o.WriteHint, "writehints", false, "write the hint file after the fixpoint")
 	flag.StringVar(&o.Solver, "solver", "z3", "solver binary")
 	flag.BoolVar(&o.Prune, "prune", false, "solver-assisted pruning of infeasible configurations")
 	flag.BoolVar(&o.Race, "race", false, "add the data-race violation class")
